@@ -1431,6 +1431,40 @@ impl LocalProvenanceStore {
                 });
             }
         }
+        // Chain link: an entry extends its own lane, so its same-lane parent must be the
+        // lane's current tip (and the first entry of a lane names no same-lane parent).
+        let own_tip = worldlines
+            .get(&worldline_id)
+            .and_then(|history| history.entries.last())
+            .map(ProvenanceEntry::as_ref);
+        let lane_parent = entry
+            .parents
+            .iter()
+            .find(|parent| parent.worldline_id == worldline_id)
+            .copied();
+        match (own_tip, lane_parent) {
+            (None, None) => {}
+            (Some(tip), Some(parent)) if tip == parent => {}
+            (Some(tip), None) => {
+                return Err(HistoryError::MissingParentRef {
+                    tick: entry.worldline_tick,
+                    parent: tip,
+                });
+            }
+            (Some(tip), Some(parent)) => {
+                return Err(HistoryError::ParentCommitHashMismatch {
+                    tick: entry.worldline_tick,
+                    parent,
+                    stored_commit_hash: tip.commit_hash,
+                });
+            }
+            (None, Some(parent)) => {
+                return Err(HistoryError::MissingParentRef {
+                    tick: entry.worldline_tick,
+                    parent,
+                });
+            }
+        }
         Ok(())
     }
 
